@@ -565,8 +565,9 @@ class Balancer:
         try:
             true_condition = getattr(true_expr, truism.op)(truism.args[1])
             false_condition = getattr(false_expr, truism.op)(truism.args[1])
-        except ClaripyOperationError:
-            # the condition was probably a Not (TODO)
+        except (ClaripyOperationError, AttributeError):
+            # the condition was probably a Not (TODO), or the truism is an operation that is no method of the branches
+            # (Or/And over Bool-valued Ifs)
             return truism
 
         can_true = claripy.backends.vsa.has_true(true_condition)
